@@ -4,7 +4,7 @@
 From Coq Require Import ExtrOcamlBasic.
 From Coq Require Import ZArith List NArith.
 Import ListNotations.
-Require Import PV.Format.Percent PV.Format.PyPercent PV.Format.StrFormat PV.Format.FormatEval.
+Require Import PV.Format.Percent PV.Format.PyPercent PV.Format.StrFormat PV.Format.FormatEval PV.Format.Typed.
 
 Definition n_of_digits (ds : list N) : N := fold_left (fun acc d => (acc * 10 + d)%N) ds 0%N.
 Definition z_of_digits (neg : bool) (ds : list N) : Z :=
@@ -21,4 +21,5 @@ Extraction NoInline st_align st_sign st_z st_alt st_zero st_width st_group st_pr
 Extraction "c17model.ml" n_of_digits z_of_digits n_digits
   pa_scan pa_check_chars py_scan py_raises_chars pa_lint pa_accept py_raises
   pa_parse pa_format_check py_parse py_format_verdict mix_clause
-  py_tree tree_fields py_format_full tfield_no_path tfield_plain.
+  py_tree tree_fields py_format_full tfield_no_path tfield_plain
+  accept_tuple_typed.
